@@ -152,17 +152,18 @@ def shard_grid(desc, rec):
             if is_vp_elem and isinstance(o, tuple) and len(o) == 2:
                 exp = "accept"
             if isinstance(o, (list, tuple)) and not is_vp_elem and np.shape(o) == tuple(req):
-                exp = "either"
+                exp = "refuse"
             check_arg(rec, name, fn, req, o, f"{type(o).__name__}:{str(o)[:20]}", exp)
         if is_vp_elem:
             for o, exp in (([1, 2], "accept"), ((3, 4), "accept"), ([1, 2, 3], "refuse"), ((1,), "refuse"), ([], "refuse"),
                            ([[1, 2]], "refuse")):
                 check_arg(rec, name, fn, req, o, f"{type(o).__name__}:{o}", exp)
         else:
-            # exactly-shaped nested list / tuple: acceptance not judged, size must be right if accepted
+            # exactly-shaped nested list / tuple: "every other ... kind of object" is refused (only viewports
+            # are documented to take two-element lists / tuples)
             lst = good(req).tolist()
-            check_arg(rec, name, fn, req, lst, f"list{tuple(req)}", "either")
-            check_arg(rec, name, fn, req, tuple(map(tuple, lst)) if len(req) == 2 else tuple(lst), f"tuple{tuple(req)}", "either")
+            check_arg(rec, name, fn, req, lst, f"list{tuple(req)}", "refuse")
+            check_arg(rec, name, fn, req, tuple(map(tuple, lst)) if len(req) == 2 else tuple(lst), f"tuple{tuple(req)}", "refuse")
         for odt in ("object", "U3"):
             try:
                 a = np.array(good(req).tolist(), dtype=odt)
